@@ -263,6 +263,14 @@ func runC13(c *mon.Ctx) {
 			} else if gv, _, e := ref.Parse(got.Content()); e != nil || !ref.Equal(gv, body) {
 				c.Failf("verify:reports-other-body", "accepted request reports body %q, signed %s", got.Content(), gen.Describe(body))
 			}
+			// the same request while the key ring cannot answer (its database is down): refused, not waved through
+			{
+				nfail := 0
+				if g, fcode, _ := verify(base, failingVerifier{&nfail}); g != nil || fcode == 200 {
+					c.Failf("verify:accepts-although-the-verifier-failed", "VerifyHTTPRequest accepts a request (code %d) although the key ring answered with an error (asked %d times)", fcode, nfail)
+				}
+				c.Count("verified_with_a_failing_key_ring")
+			}
 			// what an accepted request reports stays what it is while later requests are verified
 			c.Retain("verify", "the body reported for an accepted request", got.Content())
 			// legal re-spellings of the header must still verify
